@@ -8,6 +8,9 @@ Ties        : K  every function probed on a geometry grid (arange data + sentine
               K  1-D extract_windows / place_windows on the exhaustive per-axis grid
               K  acceptance of empty / negative output geometries per function (malformed stream)
               K  int vs tuple geometry arguments (documented as interchangeable) accepted and equal
+Layouts     : every probe and every oracle statement is repeated with the same logical argument stored C-contiguous,
+              F-contiguous, as a fully / partially transposed view, as a strided slice of a larger array and with
+              negative strides ("any x" includes its memory layout; the model abstracts from layout, the check ties that)
 Oracle      : direct NumPy statements on the implementation (no Coq): the three im2col outputs are array_equal, the three
               col2im outputs are equal, vdot(im2col x, y) == vdot(x, col2im y) on integer data, fold(unfold(ones)) equals
               the brute-force coverage count, a 15-line loop specification of unfold / windows, torch.nn.functional.unfold/fold.
@@ -114,6 +117,37 @@ def dims(g):
 
 
 # ------------------------------------------------------------------ probing the implementation
+LAYOUTS = ("C", "F", "T", "partialT", "slice", "neg")
+
+
+def relayout(a, kind):
+    """the same logical array (equal shape and values) stored in another memory layout.  The model is layout independent,
+    so every table / result must be unchanged.
+      C        C-contiguous copy                      F        np.asfortranarray
+      T        fully transposed view of a C array     partialT last two axes stored swapped (view)
+      slice    strided slice [1::2, ...] of a larger array        neg   negative strides on the last two axes"""
+    np = _impl().np
+    a = np.asarray(a)
+    if kind == "C":
+        return np.ascontiguousarray(a)
+    if kind == "F":
+        return np.asfortranarray(a)
+    if kind == "T":
+        return np.ascontiguousarray(a.T).T
+    if kind == "partialT":
+        perm = list(range(a.ndim)); perm[-1], perm[-2] = perm[-2], perm[-1]
+        return np.ascontiguousarray(a.transpose(perm)).transpose(perm)
+    if kind == "slice":
+        big = np.zeros(tuple(2 * d + 1 for d in a.shape), dtype=a.dtype)
+        v = big[tuple(slice(1, None, 2) for _ in a.shape)]
+        v[...] = a
+        return v
+    if kind == "neg":
+        idx = (Ellipsis, slice(None, None, -1), slice(None, None, -1))
+        return np.ascontiguousarray(a[idx])[idx]
+    raise ValueError(kind)
+
+
 def to_codes(arr):
     """result of a probe as exact integers; anything that is not a small integer (garbage read through a wrong stride,
     NaN, inf) becomes -998 so that the comparison fails instead of the harness"""
@@ -124,12 +158,12 @@ def to_codes(arr):
     return [int(v) if o else -998 for v, o in zip(a.tolist(), ok.tolist())]
 
 
-def probe_forward(fn, g, unfold):
+def probe_forward(fn, g, unfold, layout="C"):
     impl = _impl(); np = impl.np
     N, C, H, W = g["N"], g["C"], g["H"], g["W"]
     a = args_of(g)
     lH, lW, R, L = dims(g)
-    x = (1 + np.arange(N * C * H * W, dtype=np.float64)).reshape(N, C, H, W)
+    x = relayout((1 + np.arange(N * C * H * W, dtype=np.float64)).reshape(N, C, H, W), layout)
     try:
         out = fn(x, a["kernel"], dilation=a["dilation"], stride=a["stride"], padding=a["padding"], pad_value=-1.0, as_unfold=unfold)
     except Exception:
@@ -140,12 +174,12 @@ def probe_forward(fn, g, unfold):
     return to_codes(out)
 
 
-def probe_windows(g):
+def probe_windows(g, layout="C"):
     impl = _impl(); np = impl.np
     N, C, H, W = g["N"], g["C"], g["H"], g["W"]
     a = args_of(g)
     lH, lW, R, L = dims(g)
-    x = (1 + np.arange(N * C * H * W, dtype=np.float64)).reshape(N, C, H, W)
+    x = relayout((1 + np.arange(N * C * H * W, dtype=np.float64)).reshape(N, C, H, W), layout)
     try:
         out = impl.conv_tools.extract_windows(x, a["kernel"], a["stride"], a["padding"], a["dilation"], pad_value=-1.0)
     except Exception:
@@ -188,13 +222,13 @@ def decode_scatter(img, n_src, npix):
     return sorted(out)
 
 
-def probe_scatter(call, shape, g):
+def probe_scatter(call, shape, g, layout="C"):
     """call(y) -> image (N,C,H,W); y has the given shape and carries distinct powers of 4"""
     impl = _impl(); np = impl.np
     n = 1
     for d in shape:
         n *= d
-    y = pow4(n).reshape(shape)
+    y = relayout(pow4(n).reshape(shape), layout)
     try:
         img = call(y)
     except Exception:
@@ -206,44 +240,47 @@ def probe_scatter(call, shape, g):
     return decode_scatter(img.ravel().tolist(), n, N * C * H * W)
 
 
-def probe_all(g, with_functional=True):
-    """{function id: table} for one geometry"""
+def probe_all(g, with_functional=True, layouts=LAYOUTS):
+    """{function id: {layout: table}} for one geometry — the same logical input in every memory layout"""
     impl = _impl(); ct = impl.conv_tools
     a = args_of(g)
     N, C, H, W = g["N"], g["C"], g["H"], g["W"]
     lH, lW, R, L = dims(g)
     t = {}
-    for k, name in enumerate(FWD):
-        fn = getattr(ct, name)
-        t[k] = probe_forward(fn, g, True)
-        t[3 + k] = probe_forward(fn, g, False)
-    t[6] = probe_windows(g)
-    for k, name in enumerate(BWD):
-        fn = getattr(ct, name)
-        t[7 + k] = probe_scatter(lambda y: fn(y, (N, C, H, W), a["kernel"], a["dilation"], a["stride"], a["padding"]), (N, R, L), g)
-        t[10 + k] = probe_scatter(lambda y: fn(y, (N, C, H, W), a["kernel"], a["dilation"], a["stride"], a["padding"]), (R, N * L), g)
-    t[13] = probe_scatter(lambda y: ct.place_windows(y, (N, C, H, W), a["kernel"], a["stride"], a["padding"], a["dilation"]),
-                          (lH, lW, N, C, g["kH"], g["kW"]), g)
-    if with_functional:
-        sg, NF = impl.synapgrad, impl.NF
-        t[14] = probe_forward(lambda x, k, dilation, stride, padding, pad_value, as_unfold:
-                              NF.unfold(sg.Tensor(x), k, dilation, stride, padding, pad_value).data, g, True)
-        t[15] = probe_scatter(lambda y: NF.fold(sg.Tensor(y), (H, W), a["kernel"], a["dilation"], a["stride"], a["padding"]).data, (N, R, L), g)
+    for lay in layouts:
+        def put(fid, table):
+            t.setdefault(fid, {})[lay] = table
+        for k, name in enumerate(FWD):
+            fn = getattr(ct, name)
+            put(k, probe_forward(fn, g, True, lay))
+            put(3 + k, probe_forward(fn, g, False, lay))
+        put(6, probe_windows(g, lay))
+        for k, name in enumerate(BWD):
+            fn = getattr(ct, name)
+            put(7 + k, probe_scatter(lambda y: fn(y, (N, C, H, W), a["kernel"], a["dilation"], a["stride"], a["padding"]), (N, R, L), g, lay))
+            put(10 + k, probe_scatter(lambda y: fn(y, (N, C, H, W), a["kernel"], a["dilation"], a["stride"], a["padding"]), (R, N * L), g, lay))
+        put(13, probe_scatter(lambda y: ct.place_windows(y, (N, C, H, W), a["kernel"], a["stride"], a["padding"], a["dilation"]),
+                              (lH, lW, N, C, g["kH"], g["kW"]), g, lay))
+        if with_functional:
+            sg, NF = impl.synapgrad, impl.NF
+            put(14, probe_forward(lambda x, k, dilation, stride, padding, pad_value, as_unfold:
+                                  NF.unfold(sg.Tensor(x), k, dilation, stride, padding, pad_value).data, g, True, lay))
+            put(15, probe_scatter(lambda y: NF.fold(sg.Tensor(y), (H, W), a["kernel"], a["dilation"], a["stride"], a["padding"]).data, (N, R, L), g, lay))
     return t
 
 
-def probe_1d(g):
+def probe_1d(g, layout="C"):
     impl = _impl(); np = impl.np; ct = impl.conv_tools
     N, C, W, k, s, p, d = g["N"], g["C"], g["W"], g["k"], g["s"], g["p"], g["d"]
     l = out_size(W, k, s, p, d)
-    x = (1 + np.arange(N * C * W, dtype=np.float64)).reshape(N, C, W)
+    x = relayout((1 + np.arange(N * C * W, dtype=np.float64)).reshape(N, C, W), layout)
     try:
         out = ct.extract_windows(x, k, s, p, d, pad_value=-1.0)
         tw = to_codes(out) if tuple(out.shape) == (l, N, C, k) else BAD
     except Exception:
         tw = BAD
     n = l * N * C * k
-    y = pow4(n).reshape(l, N, C, k)
+    y = relayout(pow4(n).reshape(l, N, C, k), layout)
     try:
         img = np.asarray(ct.place_windows(y, (N, C, W), k, s, p, d))
         tc = decode_scatter(img.ravel().tolist(), n, N * C * W) if tuple(img.shape) == (N, C, W) else BAD
@@ -378,6 +415,40 @@ def oracle(g, seed, torch=None, full=True):
             if e3 or f.shape != (N, C, H, W) or not np.array_equal(f, np.broadcast_to(cover, (N, C, H, W))):
                 fail("conv_tools.%s(%s(ones))" % (bname, fname), "fold-unfold-multiplicity", "coverage count of each pixel",
                      e3 or {"first_diff": first_diff(f, np.broadcast_to(cover, (N, C, H, W)).astype(float))})
+    # "any x": the memory layout is part of the input — the same logical array must give the same result
+    mem = LAYOUTS[1:] if full else (LAYOUTS[1 + seed % (len(LAYOUTS) - 1)],)
+    for lay in mem:
+        xl = relayout(x, lay)
+        for name in FWD:
+            for unfold in layouts:
+                base = fw[(name, unfold)]
+                if base is None:
+                    continue
+                o, err = run(getattr(ct, name), xl, a["kernel"], dilation=a["dilation"], stride=a["stride"], padding=a["padding"], pad_value=pv, as_unfold=unfold)
+                if err or o.shape != base.shape or not np.array_equal(o, base):
+                    fail("conv_tools.%s" % name, "depends-on-memory-layout(input %s, as_unfold=%s)" % (lay, unfold),
+                         "same result as for the C-contiguous copy of the same array", err or {"first_diff": first_diff(o, base)})
+        for name in BWD:
+            for lay2, yy in ((("3-D", y3), ("2-D", to2d(y3))) if full else (("3-D", y3),)):
+                base = bw[(name, lay2)]
+                if base is None:
+                    continue
+                o, err = run(getattr(ct, name), relayout(yy, lay), (N, C, H, W), a["kernel"], a["dilation"], a["stride"], a["padding"])
+                if err or o.shape != base.shape or not np.array_equal(o, base):
+                    fail("conv_tools.%s" % name, "depends-on-memory-layout(argument %s, %s)" % (lay, lay2),
+                         "same image as for the C-contiguous copy of the same array", err or {"first_diff": first_diff(o, base)})
+        wl, err = run(ct.extract_windows, xl, a["kernel"], a["stride"], a["padding"], a["dilation"], pad_value=pv)
+        wc, errc = run(ct.extract_windows, x, a["kernel"], a["stride"], a["padding"], a["dilation"], pad_value=pv)
+        if errc is None and (err or wl.shape != wc.shape or not np.array_equal(wl, wc)):
+            fail("conv_tools.extract_windows", "depends-on-memory-layout(input %s)" % lay,
+                 "same windows as for the C-contiguous copy of the same array", err or {"first_diff": first_diff(wl, wc)})
+        if full:
+            ywl = y3.reshape(N, C, g["kH"], g["kW"], lH, lW).transpose(4, 5, 0, 1, 2, 3)
+            pc, errc = run(ct.place_windows, np.ascontiguousarray(ywl), (N, C, H, W), a["kernel"], a["stride"], a["padding"], a["dilation"])
+            pl, err = run(ct.place_windows, relayout(ywl, lay), (N, C, H, W), a["kernel"], a["stride"], a["padding"], a["dilation"])
+            if errc is None and (err or pl.shape != pc.shape or not np.array_equal(pl, pc)):
+                fail("conv_tools.place_windows", "depends-on-memory-layout(argument %s)" % lay,
+                     "same image as for the C-contiguous copy of the same array", err or {"first_diff": first_diff(pl, pc)})
     if full:
         # windows
         w, err = run(ct.extract_windows, x, a["kernel"], a["stride"], a["padding"], a["dilation"], pad_value=pv)
@@ -521,9 +592,13 @@ def geom1_coq(g):
 
 
 def case_coq(g, tables):
+    """tables: {fid: {layout: table}}; every distinct table a function produced (over the layouts) is compared with the model"""
     groups = {}
-    for fid, t in sorted(tables.items()):
-        groups.setdefault(tuple(t), []).append(fid)
+    for fid, per in sorted(tables.items()):
+        for t in per.values():
+            fids = groups.setdefault(tuple(t), [])
+            if fid not in fids:
+                fids.append(fid)
     body = "; ".join("([%s], %s)" % (";".join("%d%%nat" % f for f in fids), zl(t)) for t, fids in groups.items())
     return "(%s, [%s])" % (geom_coq(g), body)
 
@@ -579,12 +654,13 @@ def run(ctx):
         tb = probe_all(g)
         cases.append((g, tb))
         n_in = g["N"] * g["C"] * g["H"] * g["W"]
-        if tb[0] != list(range(1, n_in + 1)):
+        if tb[0]["C"] != list(range(1, n_in + 1)):
             nontrivial.add(tuple(g[k] for k in KEYS))
         judge(g)
     ctx.log("probed+judged %d geometries in %.1fs" % (len(geoms), time.time() - t0))
     g_s, t_s = cases[len(cases) // 3]
-    ctx.sample({"geometry": g_s, "im2col_fast(as_unfold=True) on 1+arange, pad -1": t_s[2][:24], "col2im scatter codes": t_s[7][:12]})
+    ctx.sample({"geometry": g_s, "im2col_fast(as_unfold=True) on 1+arange, pad -1": t_s[2]["C"][:24], "col2im scatter codes": t_s[7]["C"][:12],
+                "layouts_probed": list(LAYOUTS)})
     files = []
     for k in range(0, len(cases), CH):
         chunk = cases[k:k + CH]
@@ -601,22 +677,34 @@ def run(ctx):
         for code in lists[0]:
             ci, fid = divmod(code, 100)
             g, tb = cases[k + ci]
-            mism.append({"function": FN_NAMES[fid], "geometry": g, "implementation_table": tb[fid][:40]})
-    ctx.tie("conv_tools index maps (16 functions x geometry grid)", "correspondence", len(cases) * 16, len(nontrivial), mism,
+            per = tb[fid]
+            odd = [l for l in LAYOUTS if per[l] != per["C"]]
+            mism.append({"function": FN_NAMES[fid], "geometry": g,
+                         "layouts": odd and ("result depends on the memory layout of the argument: %s differ from C" % odd) or "all layouts",
+                         "implementation_table": (per[odd[0]] if odd else per["C"])[:40]})
+    ctx.tie("conv_tools index maps (16 functions x 6 memory layouts x geometry grid)", "correspondence", len(cases) * 16 * len(LAYOUTS), len(nontrivial), mism,
             exhaustive=True,
             note="every per-axis geometry (k,s in 1..%d, p in 0..2, d in 1..2, size 1..%d, >= 1 window) occurs on the H axis and on the W axis; "
                  "forward maps read with 1+arange data and pad value -1, scatter multisets with distinct powers of 4 (object dtype); "
-                 "N,C in {1,2}; non-trivial = forward map of im2col is not the identity" % ((3, 7) if ctx.quick else (4, 9)))
+                 "N,C in {1,2}; every argument is passed in 6 memory layouts (C, F, fully / partially transposed view, strided slice, negative strides) — "
+                 "the model abstracts from layout, so all must give the model's table; non-trivial = forward map of im2col is not the identity" % ((3, 7) if ctx.quick else (4, 9)))
     ctx.extra["geometries"] = len(geoms)
 
     # ---- tie 2: 1-D windows on the exhaustive per-axis grid -----------------------------------------------------
     g1 = geometry_1d_cases(ctx.quick)
-    c1 = [(g, probe_1d(g)) for g in g1]
+    c1 = []
+    for g in g1:
+        seen1 = {}
+        for lay in LAYOUTS:
+            tw, tc = probe_1d(g, lay)
+            seen1.setdefault((tuple(tw), tuple(tc)), []).append(lay)
+        for (tw, tc), lays in seen1.items():
+            c1.append((g, (list(tw), list(tc)), lays))
     files = []
     CH1 = 120
     for k in range(0, len(c1), CH1):
         chunk = c1[k:k + CH1]
-        txt = HEADER + "Definition cases : list case1 :=\n [%s].\n" % ";\n  ".join("(%s, (%s, %s))" % (geom1_coq(g), zl(tw), zl(tc)) for g, (tw, tc) in chunk)
+        txt = HEADER + "Definition cases : list case1 :=\n [%s].\n" % ";\n  ".join("(%s, (%s, %s))" % (geom1_coq(g), zl(tw), zl(tc)) for g, (tw, tc), _ in chunk)
         txt += "Eval vm_compute in (check_cases1 cases).\n"
         files.append(("win1d_%d" % (k // CH1), txt))
     res = ctx.coq_eval_many(files, timeout=900)
@@ -628,9 +716,9 @@ def run(ctx):
             mism.append({"file": name, "error": out[-400:]}); continue
         for code in lists[0]:
             ci, fid = divmod(code, 100)
-            g, (tw, tc) = c1[k + ci]
-            mism.append({"function": FN_NAMES[fid], "geometry": g, "implementation_table": (tw if fid == 20 else tc)[:40]})
-    ctx.tie("extract_windows / place_windows on (N,C,W), exhaustive per-axis grid", "correspondence", 2 * len(c1),
+            g, (tw, tc), lays = c1[k + ci]
+            mism.append({"function": FN_NAMES[fid], "geometry": g, "layouts": lays, "implementation_table": (tw if fid == 20 else tc)[:40]})
+    ctx.tie("extract_windows / place_windows on (N,C,W), exhaustive per-axis grid", "correspondence", 2 * len(g1) * len(LAYOUTS),
             sum(1 for g in g1 if g["k"] > 1 or g["p"] > 0 or g["s"] > 1), mism, exhaustive=True,
             note="all (W,k,s,p,d) of the grid with >= 1 window; non-trivial = not the identity window (k=1,s=1,p=0)")
 
